@@ -20,9 +20,7 @@ def load_claimed():
 
 CLAIMED = load_claimed()
 
-NOT_APPLICABLE = {
-    "C18": "front-end totality is absence of Rust-level partiality in nom/compiler code; a total Gallina model cannot express it and no Rust-to-Coq translation is available offline (DESIGN.md §6)",
-}
+NOT_APPLICABLE = {}
 
 PENDING_REASON = "not claimed yet: the Coq model/correspondence for this property is still being built (see DESIGN.md §9 staging); no check is registered until it is sound"
 
